@@ -9,11 +9,23 @@ import (
 	"io/ioutil"
 	"os"
 	"strings"
+	"syscall"
 
 	"k8s.io/klog/v2"
 )
 
-var out = bufio.NewWriterSize(os.Stdout, 1<<16)
+var out *bufio.Writer
+
+// the protocol stream is the original stdout; fd 1 is then pointed at stderr so that libraries which
+// log to stdout (the tikv client's zap logger) cannot corrupt the transcript
+func init() {
+	fd, err := syscall.Dup(1)
+	if err != nil {
+		panic(err)
+	}
+	out = bufio.NewWriterSize(os.NewFile(uintptr(fd), "protocol"), 1<<16)
+	_ = syscall.Dup2(2, 1)
+}
 
 func emit(format string, a ...interface{}) {
 	fmt.Fprintf(out, format+"\n", a...)
